@@ -294,7 +294,7 @@ func c27OrderRun(in c27OrderIn) (V, Verdict) {
 		}
 		pkts[i] = b
 	}
-	s := NewSched()
+	s := NewSched().Only("mux.")
 	defer s.Close()
 	conn := newC27Conn(append([][]byte{}, pkts...), false)
 	rd := s.AddSpawned("reader", "mux.rd.")
